@@ -93,6 +93,10 @@ func generate(prop, stream string, r *hutil.Rng, i int) Case {
 	case prop == "c03" && stream == "malformed" && i%3 == 0:
 		sc, meta := sfuBadScenario(r, i)
 		return Case{Scenario: sc, Meta: meta}
+	case prop == "c03" && stream == "clean" && i%16 == 8:
+		// generated-key batches with a changing auto_increment_increment: every generated row must be named by a lock key
+		sc, meta := autostepScenario(r, i)
+		return Case{Scenario: sc, Meta: meta}
 	case prop == "c03" && stream == "clean" && i%4 == 3:
 		sc, meta := txScenario(r, i)
 		return Case{Scenario: sc, Meta: meta}
